@@ -12,11 +12,12 @@ structure Frame (pid : Nat) (k k' : Kernel) : Prop where
   ncpu : k'.ncpu = k.ncpu
   nrOpen : k'.nrOpen = k.nrOpen
   cap : k'.capResource = k.capResource
+  capNice : k'.capNice = k.capNice
 
-theorem Frame.refl (pid : Nat) (k : Kernel) : Frame pid k k := ⟨fun _ _ => rfl, rfl, rfl, rfl, rfl⟩
+theorem Frame.refl (pid : Nat) (k : Kernel) : Frame pid k k := ⟨fun _ _ => rfl, rfl, rfl, rfl, rfl, rfl⟩
 
 theorem frame_setProc (k : Kernel) (pid : Nat) (st : PState) (e : Eff) : Frame pid k (setProc k pid st e) :=
-  ⟨fun q hq => by simp [setProc, hq], rfl, rfl, rfl, rfl⟩
+  ⟨fun q hq => by simp [setProc, hq], rfl, rfl, rfl, rfl, rfl⟩
 
 theorem resolve_pid (k : Kernel) {pid : Nat} (h : pid ≠ 0) : resolve k pid = pid := by simp [resolve, h]
 
